@@ -280,3 +280,24 @@ Theorem C02_source_into_native :
   bounds_of "From<GenericArray<T,ConstArrayLength<N>>> for [T;N]" = Some ["Const<N>:IntoArrayLength"; "const N"] /\
   methods_of "From<GenericArray<T,ConstArrayLength<N>>> for [T;N]" = Some ["from"].
 Proof. repeat split. Qed.
+
+(* ---- T1: the signatures of this property's inherent methods / free functions as they stand in the source now
+        (coq/gen/GenSigs.v gen_fn_sigs): visibility, const / unsafe, generics, parameters, result, where-clause --
+        the views borrow from `self` / from the slice they are given (one elided lifetime each) ---- *)
+From Coq Require Import String.
+From GA Require Import SigDefs.
+From GAGen Require Import GenSigs.
+Local Open Scope string_scope.
+
+Theorem C02_source_signatures :
+  sig_of "GenericArray<T,N> where N:ArrayLength" "as_slice" = Some "pub const fn as_slice (& self) -> & [T]" /\
+  sig_of "GenericArray<T,N> where N:ArrayLength" "as_mut_slice" = Some "pub const fn as_mut_slice (& mut self) -> & mut [T]" /\
+  sig_of "GenericArray<T,N> where N:ArrayLength" "from_slice" = Some "pub const fn from_slice (slice : & [T]) -> & GenericArray < T , N >" /\
+  sig_of "GenericArray<T,N> where N:ArrayLength" "try_from_slice" = Some "pub const fn try_from_slice (slice : & [T]) -> Result < & GenericArray < T , N > , LengthError >" /\
+  sig_of "GenericArray<T,N> where N:ArrayLength" "from_mut_slice" = Some "pub const fn from_mut_slice (slice : & mut [T]) -> & mut GenericArray < T , N >" /\
+  sig_of "GenericArray<T,N> where N:ArrayLength" "try_from_mut_slice" = Some "pub const fn try_from_mut_slice (slice : & mut [T] ,) -> Result < & mut GenericArray < T , N > , LengthError >" /\
+  sig_of "GenericArray<T,N> where N:ArrayLength" "from_array" = Some "pub const fn from_array < const U : usize > (value : [T ; U]) -> Self where Const < U > : IntoArrayLength < ArrayLength = N > ," /\
+  sig_of "GenericArray<T,N> where N:ArrayLength" "into_array" = Some "pub const fn into_array < const U : usize > (self) -> [T ; U] where Const < U > : IntoArrayLength < ArrayLength = N > ," /\
+  sig_of "GenericArrayIter<T,N> where N:ArrayLength" "as_slice" = Some "pub fn as_slice (& self) -> & [T]" /\
+  sig_of "GenericArrayIter<T,N> where N:ArrayLength" "as_mut_slice" = Some "pub fn as_mut_slice (& mut self) -> & mut [T]".
+Proof. repeat split. Qed.
